@@ -1,3 +1,5 @@
+import BlockCiphers.Proofs.KuznyechikCompact
+import BlockCiphers.Proofs.Kuznyechik
 import BlockCiphers.Proofs.Gift
 import BlockCiphers.Proofs.Xtea
 import BlockCiphers.Proofs.Rc5SpeckC01
@@ -26,8 +28,79 @@ and is proved by applying it.  ONLY property theorems and non-vacuity examples l
 One theorem (pair) per cipher model, for ALL keys of every accepted length and ALL blocks; Threefish for all tweaks; BelT wide block
 for all inputs of at least 32 bytes; AES at the FIPS-197 level (all Nr, all expanded keys) and for the AES-NI model.
 AES: FIPS-197 level, AES-NI model and the four fixslice backends (64/32-bit, normal/compact).
-Registry entries still outside this file: Kuznyechik (4 backends) (listed in the evidence).
+Kuznyechik: the compact backend and the three table backends (big_soft, SSE2, NEON model), each with its own pre-transformed decryption keys.
 -/
+
+namespace BC.Kuznyechik.Compact
+open BC.Spec.Kuznyechik
+/-- C01: decryption inverts encryption for every key and block -/
+theorem C01.kuz_compact_decrypt_encrypt (key : BitVec 256) (b : BitVec 128) :
+    decrypt_block (expand key) (encrypt_block (expand key) b) = b :=
+  _root_.BC.Kuznyechik.Compact.decrypt_encrypt key b
+end BC.Kuznyechik.Compact
+
+namespace BC.Kuznyechik.Compact
+open BC.Spec.Kuznyechik
+/-- C01, the other order -/
+theorem C01.kuz_compact_encrypt_decrypt (key : BitVec 256) (b : BitVec 128) :
+    encrypt_block (expand key) (decrypt_block (expand key) b) = b :=
+  _root_.BC.Kuznyechik.Compact.encrypt_decrypt key b
+end BC.Kuznyechik.Compact
+
+namespace BC.Kuznyechik.Compact
+open BC.Spec.Kuznyechik
+/-- C01 for ANY ten round keys: `decrypt_block` undoes `encrypt_block` -/
+theorem C01.kuz_compact_decrypt_encrypt_keys (k : RoundKeys) (b : BitVec 128) : decrypt_block k (encrypt_block k b) = b :=
+  _root_.BC.Kuznyechik.Compact.decrypt_encrypt_keys k b
+end BC.Kuznyechik.Compact
+
+namespace BC.Kuznyechik.Compact
+open BC.Spec.Kuznyechik
+theorem C01.kuz_compact_encrypt_decrypt_keys (k : RoundKeys) (b : BitVec 128) : encrypt_block k (decrypt_block k b) = b :=
+  _root_.BC.Kuznyechik.Compact.encrypt_decrypt_keys k b
+end BC.Kuznyechik.Compact
+
+namespace BC.Kuznyechik.Soft
+open BC.Spec.Kuznyechik
+theorem C01.kuz_soft_decrypt_encrypt (key : BitVec 256) (b : BitVec 128) :
+    decrypt_block (inv_enc_keys (expand_enc_keys key)) (encrypt_block (expand_enc_keys key) b) = b :=
+  _root_.BC.Kuznyechik.Soft.decrypt_encrypt key b
+end BC.Kuznyechik.Soft
+
+namespace BC.Kuznyechik.Sse2
+open BC.Spec.Kuznyechik
+theorem C01.kuz_sse2_decrypt_encrypt (key : BitVec 256) (b : BitVec 128) :
+    decrypt_block (inv_enc_keys (expand_enc_keys key)) (encrypt_block (expand_enc_keys key) b) = b :=
+  _root_.BC.Kuznyechik.Sse2.decrypt_encrypt key b
+end BC.Kuznyechik.Sse2
+
+namespace BC.Kuznyechik.Neon
+open BC.Spec.Kuznyechik
+theorem C01.kuz_neon_decrypt_encrypt (key : BitVec 256) (b : BitVec 128) :
+    decrypt_block (inv_enc_keys (expand_enc_keys key)) (encrypt_block (expand_enc_keys key) b) = b :=
+  _root_.BC.Kuznyechik.Neon.decrypt_encrypt key b
+end BC.Kuznyechik.Neon
+
+namespace BC.Kuznyechik.Soft
+open BC.Spec.Kuznyechik
+theorem C01.kuz_soft_encrypt_decrypt (key : BitVec 256) (b : BitVec 128) :
+    encrypt_block (expand_enc_keys key) (decrypt_block (inv_enc_keys (expand_enc_keys key)) b) = b :=
+  _root_.BC.Kuznyechik.Soft.encrypt_decrypt key b
+end BC.Kuznyechik.Soft
+
+namespace BC.Kuznyechik.Sse2
+open BC.Spec.Kuznyechik
+theorem C01.kuz_sse2_encrypt_decrypt (key : BitVec 256) (b : BitVec 128) :
+    encrypt_block (expand_enc_keys key) (decrypt_block (inv_enc_keys (expand_enc_keys key)) b) = b :=
+  _root_.BC.Kuznyechik.Sse2.encrypt_decrypt key b
+end BC.Kuznyechik.Sse2
+
+namespace BC.Kuznyechik.Neon
+open BC.Spec.Kuznyechik
+theorem C01.kuz_neon_encrypt_decrypt (key : BitVec 256) (b : BitVec 128) :
+    encrypt_block (expand_enc_keys key) (decrypt_block (inv_enc_keys (expand_enc_keys key)) b) = b :=
+  _root_.BC.Kuznyechik.Neon.encrypt_decrypt key b
+end BC.Kuznyechik.Neon
 
 namespace BC.Gift
 /-- C01 for `Gift128`: every 16-byte key, every block -/
